@@ -385,12 +385,16 @@ class TypeMap:
             if last == "__normal_iterator":
                 return self.c(a0)  # already T*
             return self.c(a0) + "*"
-        if last in ("iterator", "const_iterator", "reverse_iterator", "const_reverse_iterator") and "::" in name:
+        if last in ("iterator", "const_iterator", "reverse_iterator", "const_reverse_iterator") and "::" in name \
+                and not t.args:
             # std::vector<T>::iterator printed unsugared
-            m = re.match(r"(.*)<(.*)>::(const_)?iterator$", name)
+            m = re.match(r"(.*)<(.*)>::(const_)?(reverse_)?iterator$", name)
             if m and m.group(1).split("::")[-1] in SEQS:
                 return self.c(parse(first_targ(m.group(2)))) + "*"
             raise Unsupported("iterator type %s" % name)
+        if last == "reverse_iterator" and t.args:
+            # std::reverse_iterator<It>: represented by its base() pointer (libmap renders *, ++, -- accordingly)
+            return self.c(t.args[0])
         if last == "pair" and len(t.args) == 2:
             a, b = self.c(t.args[0]), self.c(t.args[1])
             tg = self.tag(a) + "__" + self.tag(b)
